@@ -348,8 +348,11 @@ _SEARCH = (("mofun.mofun", None), ("mofun.helpers", ("atoms_of_type", "atoms_by_
                                                         "quaternion_from_two_vectors", "quaternion_from_two_vectors_around_axis", "positions_are_unchanged")))
 _SEARCH = _SEARCH + (("mofun.atoms", ("Atoms.elements", "Atoms.symbols", "Atoms.copy", "Atoms.translate", "Atoms.cell_is_orthorhombic", "find_unchanged_atom_pairs", "Atoms.__len__")),)
 _ATOMS = (("mofun.atoms", None),)
+# the replacement goes through extend / delete: generic discipline rules of the replacement properties look at those too
+_REPLACE = _SEARCH + (("mofun.atoms", ("Atoms.extend", "Atoms.extend.find_existing_topo", "Atoms.extend_types", "Atoms._extend_extra_fields", "Atoms.__delitem__",
+                                       "Atoms._delete_and_reindex_atom_index_array", "Atoms.pop")),)
 _SCOPES = {
-    "C01": _SEARCH, "C02": _SEARCH, "C03": _SEARCH, "C04": _SEARCH, "C05": _SEARCH, "C06": _SEARCH, "C07": _SEARCH, "C08": _SEARCH,
+    "C01": _SEARCH, "C02": _SEARCH, "C03": _SEARCH, "C04": _REPLACE, "C05": _REPLACE, "C06": _REPLACE, "C07": _REPLACE, "C08": _REPLACE,
     "C09": _ATOMS, "C10": _ATOMS, "C11": _ATOMS, "C12": _ATOMS,
     "C13": (("mofun.atoms", ("Atoms.load_lmpdat", "Atoms.save_lmpdat")), ("mofun.helpers", ("guess_elements_from_masses",))),
     "C14": (("mofun.helpers", ("guess_elements_from_masses",)), ("mofun.atoms", ("Atoms.load_lmpdat",))),
@@ -365,6 +368,7 @@ for _id, _sc in _SCOPES.items():
     PROPERTIES[_id]["rules"].append((G.G13_size_bound_agreement, "%s an index filter agrees with the size of the table it indexes (no off-by-one between size and bound)" % _id, {"scope": _sc}))
     PROPERTIES[_id]["rules"].append((G.G14_view_mutation, "%s no in-place operation on a view of an argument's array" % _id, {"scope": _sc}))
     PROPERTIES[_id]["rules"].append((G.G15_order_and_bucket_pitfalls, "%s mask order is not paired with dict order; tolerances are not implemented by rounded keys" % _id, {"scope": _sc}))
+    PROPERTIES[_id]["rules"].append((G.G16_parallel_order, "%s parallel per-item arrays are updated, replicated and paired in one order" % _id, {"scope": _sc}))
     PROPERTIES[_id]["rules"].append((G.G12_set_order, "%s a sequence made from a set is not used as an ordered selector" % _id, {"scope": _sc}))
     PROPERTIES[_id]["rules"].append((G.G10_defined_before_use, "%s every read of a local is reached by an assignment (no statement moved above the one that defines its input)" % _id, {"scope": _sc}))
     PROPERTIES[_id]["rules"].append((G.G7_api_contract_pitfalls, "%s API contracts: insertion points as indices, span versus length, memoised functions / caching properties, stored tables tested by truth value" % _id, {"scope": _sc}))
